@@ -43,9 +43,9 @@ FORMS = {  # name -> (dims, channels(D), degree-compatible fractions)
 def cases(tier, seed):
     out = []
     if tier == "quick":
-        Ns = {1: list(range(6, 18)) + [24, 31], 2: [6, 7, 8, 9, 12, 13], 3: [6, 7, 9]}
+        Ns = {1: list(range(6, 18)) + [24, 31, 49, 98], 2: [6, 7, 8, 9, 12, 13], 3: [6, 7, 9]}          # 49, 98: sizes where N * (1 / N) != 1 in double precision (finding F13)
     else:
-        Ns = {1: list(range(4, 41)), 2: list(range(4, 25)), 3: list(range(4, 18))}
+        Ns = {1: list(range(4, 41)) + [49, 98, 103, 187], 2: list(range(4, 25)), 3: list(range(4, 18))}
     for form, (dims, ch, fracs) in FORMS.items():
         for D in dims:
             for N in Ns[D]:
